@@ -161,7 +161,18 @@ class Lab:
         self.mod = importlib.import_module(uniq)
         self.tasks = [self.mod.elem_a, self.mod.elem_b, self.mod.elem_c]
         self.client = RedunClient()
+        self.parser = None
         self.n = 0
+
+    def oneshot(self, argv: list):
+        """What `redun <argv>` does: RedunClient.execute without rebuilding the argument parser for every
+        call (parse with the client's own parser, then the function the oneshot command is bound to)."""
+        if self.parser is None:
+            self.parser = self.client.get_command_parser()
+        args, extra = self.parser.parse_known_args(argv[1:])
+        if getattr(args, "func", None) is None or getattr(args.func, "__name__", "") != "oneshot_command":
+            raise MachineryError("the oneshot sub-command is no longer bound to RedunClient.oneshot_command")
+        return args.func(args, extra, argv)
 
     # a group of jobs --------------------------------------------------------------------------
     def new_group(self, case: dict, payloads: list, variant: int, index_var=None) -> "Group":
@@ -259,7 +270,7 @@ class Group:
             else:
                 argv = self.argv[i - 1]
             try:
-                lab.client.execute(list(argv))
+                lab.oneshot(list(argv))
                 self.last_raised[i - 1] = False
             except Exception:  # noqa  (the container exits non-zero)
                 self.last_raised[i - 1] = True
@@ -498,11 +509,14 @@ class ReuniteLab:
         cfg = self.Config({"batch": {"image": "img", "queue": "queue", "s3_scratch": scratch,
                                      "job_monitor_interval": 0.02, "job_stale_time": 0.01, "code_package": False,
                                      "job_name_prefix": common}})
-        ex = self.Exec("batch", self.sched, cfg["batch"])
+        with patch("redun.executors.aws_utils.get_default_region", lambda: "us-west-2"):
+            ex = self.Exec("batch", self.sched, cfg["batch"])
         api = FakeBatchApi("queue")
         statuses = ["SUBMITTED", "PENDING", "RUNNABLE", "STARTING", "RUNNING"]
-        for r, name in zip(case["R"], names):
-            api.jobs.append({"jobId": r["id"], "jobName": name, "status": rng.choice(statuses)})
+        # (the executor lists the queue status by status: keep the model's order of the remote jobs)
+        order = sorted(rng.randrange(5) for _ in case["R"])
+        for r, name, st in zip(case["R"], names, order):
+            api.jobs.append({"jobId": r["id"], "jobName": name, "status": statuses[st]})
             if r["kids"]:
                 api.children[r["id"]] = [{"jobId": f"{r['id']}:{k - 1}", "status": rng.choice(statuses),
                                           "arrayProperties": {"index": k - 1}} for k in r["kids"]]
@@ -519,7 +533,8 @@ class ReuniteLab:
                     jobs.append(job)
                 self.lab.S.write_array_job_scratch_files(jobs, scratch, parent)
         # somebody else's jobs on the queue: another prefix, and a finished job of ours
-        api.jobs.append({"jobId": "foreign", "jobName": "zz-other-" + TOKENS["h1"], "status": "RUNNING"})
+        if common:
+            api.jobs.append({"jobId": "foreign", "jobName": "~" + common + "-" + TOKENS["h1"], "status": "RUNNING"})
         api.jobs.append({"jobId": "done", "jobName": (common or "x") + "-" + TOKENS["h3"], "status": "SUCCEEDED"})
         return ex, api, words
 
@@ -606,10 +621,11 @@ def _submit_through_executor(ctx: Ctx, rl: ReuniteLab, c: dict, rng, made_for: d
 
 
 # ------------------------------------------------------------------------- TLC configs
-def gen_cfg(max_n: int, max_seg: int, kinds, max_runs: int, variant="asbuilt", emit="EmitCases", view=True,
+def gen_cfg(max_n: int, max_seg: int, kinds, max_runs: int, variant="asbuilt", emit="EmitCases", view=True, sim=False,
             invs=("GOutcomeOK", "GOneOutcomeFile", "GNameLaw", "GReunite"), props=("GIsolation",)) -> str:
     cfg = (f'SPECIFICATION GSpec\nCONSTANTS\n MaxN = {max_n}\n MaxSeg = {max_seg}\n MaxRuns = {max_runs}\n'
-           f' Kinds = {{{", ".join(chr(34) + k + chr(34) for k in kinds)}}}\n Variant = "{variant}"\n')
+           f' Kinds = {{{", ".join(chr(34) + k + chr(34) for k in kinds)}}}\n Variant = "{variant}"\n'
+           f' SimPick = {"TRUE" if sim else "FALSE"}\n')
     cfg += "".join(f"INVARIANT {i}\n" for i in invs) + "".join(f"PROPERTY {p}\n" for p in props)
     if emit:
         cfg += f"INVARIANT {emit}\n"
@@ -662,8 +678,8 @@ def run(ctx: Ctx) -> None:
 
     # ---- 3. spec -> code: simulated behaviours, event by event ---------------------------------
     nsim = ctx.pick(150, 2500)
-    s = run_tlc("seq/RemoteJob_Gen.tla", gen_cfg(3, 1, ("proto",), 2, emit="Emit", view=False, invs=("GOutcomeOK",),
-                                                  props=()),
+    s = run_tlc("seq/RemoteJob_Gen.tla", gen_cfg(3, 1, ("proto",), 2, emit="Emit", view=False, sim=True,
+                                                  invs=("GOutcomeOK",), props=()),
                 ctx.scratch, workers=1, simulate=f"num={nsim}", depth=16, seed=ctx.seed + 1, env=JVM_SHORT, timeout=1200)
     ctx.require(s.error is None and not s.violated, f"simulation failed: {s.error} {s.violated}\n{s.out[-1500:]}")
     ctx.add_tlc(s)
@@ -759,9 +775,9 @@ def run(ctx: Ctx) -> None:
                 "local": [groups[0].describe(i + 1)[:160] for i in range(min(3, traces[0]["c"]["n"]))]})
 
     # ---- 6. model-level controls -----------------------------------------------------------------
-    ctl = [("index_off_by_one", "GOutcomeOK", ("proto",))]
+    ctl = []
     if not ctx.quick:
-        ctl += [("error_type_lost", "GOutcomeOK", ("proto",)), ("stale_output_trusted", "GOutcomeOK", ("proto",)),
+        ctl += [("index_off_by_one", "GOutcomeOK", ("proto",)), ("error_type_lost", "GOutcomeOK", ("proto",)), ("stale_output_trusted", "GOutcomeOK", ("proto",)),
                 ("hash_first_segment", "GNameLaw", ("name",)), ("child_index_shift", "GReunite", ("reunite",))]
     for variant, inv, kinds in ctl:
         r = run_tlc("seq/RemoteJob_Gen.tla", gen_cfg(2, 2, kinds, 1, variant=variant, emit=None, invs=(inv,), props=()),
